@@ -352,7 +352,12 @@ class Implements(NameAndModuleComparisonMixin,
         return f'classImplements({name}{declared_names})'
 
     def __reduce__(self):
-        return implementedBy, (self.inherit, )
+        described = self.inherit
+        if described is None:
+            # Declared with one of the *only* forms, or for a factory
+            # that is not a class.
+            described = self.__dict__.get('_v_described')
+        return implementedBy, (described, )
 
 
 def _implements_name(ob):
@@ -493,6 +498,7 @@ def implementedBy(
         spec = Implements.named(spec_name, *[implementedBy(c) for c in bases])
         spec.inherit = cls
 
+    spec._v_described = cls
     try:
         cls.__implemented__ = spec
         if not hasattr(cls, '__providedBy__'):
@@ -688,6 +694,7 @@ class implementer:
 
         spec_name = _implements_name(ob)
         spec = Implements.named(spec_name, *self.interfaces)
+        spec._v_described = ob
         try:
             ob.__implemented__ = spec
         except AttributeError:
